@@ -660,6 +660,192 @@ theorem foldBoth_spec (env : Env J S C) (cfg : Cfg) (st : Stats) (raw : Text) (c
     · rw [W.eta (loopX env raw (effective cfg call) ⟨st.total + 1, st.successful, st.succ, st.att⟩ []), ho, htr]
       simp [W.map_mk, LoopOut.map, X.erase]
 
+/-! ### folds with user callbacks -/
+
+/-- `fold` / `fold_enhanced` from the strategy loop on, with callbacks, described through `fold` / `fold_enhanced`
+    without callbacks on the text the strategies work on: same library calls, same counters; a success is the same
+    report with the caller's raw text echoed; a failure goes through `on_misfold` with one and the same report. -/
+theorem foldHOnBoth_spec (env : Env J S C) (hk : Hooks S C) (cfg : Cfg) (st : Stats) (raw t : Text)
+    (call : List Strategy) (hooks : List (HookCall S C)) :
+    (∃ tr stF, (∀ s ∈ effective cfg call, Fails (attemptX env t) (·.valid) s) ∧
+      stF = ⟨st.total + 1, st.successful, st.succ, bumpAll st.att (effective cfg call)⟩ ∧
+      foldX env cfg st t call = ⟨tr, .ok (stF, misfoldReport t (effective cfg call).length
+          ((effective cfg call).map (failRec (attemptX env t) (·.err))))⟩ ∧
+      fold env cfg st t call = ⟨tr, .ok (stF, ⟨false, none, t, some (.allFailed (effective cfg call).length)⟩)⟩ ∧
+      foldXHOn env hk cfg st raw t call hooks =
+        callMisfold hk stF hooks tr
+          (misfoldReport raw (effective cfg call).length ((effective cfg call).map (failRec (attemptX env t) (·.err))))
+          (misfoldReport raw (effective cfg call).length ((effective cfg call).map (failRec (attemptX env t) (·.err)))) ∧
+      foldHOn env hk cfg st raw t call hooks =
+        callMisfold hk stF hooks tr
+          (misfoldReport raw (effective cfg call).length ((effective cfg call).map (failRec (attemptX env t) (·.err))))
+          ⟨false, none, raw, some (.allFailed (effective cfg call).length)⟩) ∨
+    (∃ tr stH rx, rx.valid = true ∧
+      foldX env cfg st t call = ⟨tr, .ok (stH, rx)⟩ ∧
+      fold env cfg st t call = ⟨tr, .ok (stH, ⟨true, rx.struct, t, none⟩)⟩ ∧ rx.raw = t ∧
+      foldXHOn env hk cfg st raw t call hooks =
+        ⟨stH, hooks, tr, .ok ⟨rx.valid, rx.struct, raw, rx.err, rx.attempts, rx.confidence, rx.coercions,
+                               rx.strategyUsed⟩⟩ ∧
+      foldHOn env hk cfg st raw t call hooks = ⟨stH, hooks, tr, .ok ⟨true, rx.struct, raw, none⟩⟩) := by
+  unfold fold foldX foldHOn foldXHOn
+  simp only [loopP_as_map]
+  rcases loopG_spec (attemptX env t) (·.valid) (·.err) (effective cfg call)
+      ⟨st.total + 1, st.successful, st.succ, st.att⟩ [] with
+    ⟨o, ho, hh, hf, ha, hs⟩ | ⟨o, pre, s, post, x, ho, hstrs, hf, hr, hv, hh, ha, hs, tpre, htr⟩
+  · left
+    rw [← loopX_eq_loopG] at ho
+    obtain ⟨ostats, ohit, oatts⟩ := o
+    simp at hh ha hs
+    subst hh ha hs
+    refine ⟨(loopX env t (effective cfg call) ⟨st.total + 1, st.successful, st.succ, st.att⟩ []).trace,
+      ⟨st.total + 1, st.successful, st.succ, bumpAll st.att (effective cfg call)⟩, hf, rfl, ?_, ?_, ?_, ?_⟩
+    · rw [W.eta (loopX env t (effective cfg call) ⟨st.total + 1, st.successful, st.succ, st.att⟩ []), ho]
+      simp [misfoldReport]
+    · rw [W.eta (loopX env t (effective cfg call) ⟨st.total + 1, st.successful, st.succ, st.att⟩ []), ho]
+      simp [W.map_mk, LoopOut.map]
+    · rw [W.eta (loopX env t (effective cfg call) ⟨st.total + 1, st.successful, st.succ, st.att⟩ []), ho]
+    · rw [W.eta (loopX env t (effective cfg call) ⟨st.total + 1, st.successful, st.succ, st.att⟩ []), ho]
+      simp [W.map_mk, LoopOut.map]
+  · right
+    rw [← loopX_eq_loopG] at ho htr
+    obtain ⟨ostats, ohit, oatts⟩ := o
+    simp at hh ha hs
+    subst hh ha hs
+    refine ⟨tpre ++ (attemptX env t s).trace,
+      ⟨st.total + 1, st.successful + 1, bump st.succ s, bumpAll st.att (pre ++ [s])⟩,
+      ⟨x.valid, x.struct, t, x.err.map .attempt,
+        pre.map (failRec (attemptX env t) (·.err)) ++ [⟨s, true, none⟩], x.confidence, x.coercions, x.strategyUsed⟩,
+      hv, ?_, ?_, rfl, ?_, ?_⟩
+    · rw [W.eta (loopX env t (effective cfg call) ⟨st.total + 1, st.successful, st.succ, st.att⟩ []), ho, htr]
+      simp
+    · rw [W.eta (loopX env t (effective cfg call) ⟨st.total + 1, st.successful, st.succ, st.att⟩ []), ho, htr]
+      simp [W.map_mk, LoopOut.map, X.erase, hv]
+    · rw [W.eta (loopX env t (effective cfg call) ⟨st.total + 1, st.successful, st.succ, st.att⟩ []), ho, htr]
+    · rw [W.eta (loopX env t (effective cfg call) ⟨st.total + 1, st.successful, st.succ, st.att⟩ []), ho, htr]
+      simp [W.map_mk, LoopOut.map, X.erase]
+
+/-- `t` is the text the strategies of a fold of `raw` work on: `raw` itself when no co-chaperone is registered for the
+    schema, else what the co-chaperone returned for `raw` -/
+def Hooks.Feeds (hk : Hooks S C) (raw t : Text) : Prop :=
+  (hk.pre = none ∧ t = raw) ∨ (∃ f, hk.pre = some f ∧ f raw = .ok t)
+
+/-- the co-chaperone invocation that precedes the strategy loop (none when no co-chaperone is registered) -/
+def preHooks (hk : Hooks S C) (raw t : Text) : List (HookCall S C) :=
+  match hk.pre with
+  | none => []
+  | some _ => [.pre raw (.ok t)]
+
+/-- either the co-chaperone raises (and that is all that happens), or the strategies run on the text it feeds -/
+theorem foldH_cases (env : Env J S C) (hk : Hooks S C) (cfg : Cfg) (st : Stats) (raw : Text) (call : List Strategy) :
+    (∃ f e, hk.pre = some f ∧ f raw = .raise e ∧
+      foldH env hk cfg st raw call =
+        ⟨⟨st.total + 1, st.successful, st.succ, st.att⟩, [.pre raw (.raise e)], [], .raise e⟩ ∧
+      foldXH env hk cfg st raw call =
+        ⟨⟨st.total + 1, st.successful, st.succ, st.att⟩, [.pre raw (.raise e)], [], .raise e⟩) ∨
+    (∃ t, hk.Feeds raw t ∧
+      foldH env hk cfg st raw call = foldHOn env hk cfg st raw t call (preHooks hk raw t) ∧
+      foldXH env hk cfg st raw call = foldXHOn env hk cfg st raw t call (preHooks hk raw t)) := by
+  unfold foldH foldXH withPre
+  cases hp : hk.pre with
+  | none => exact Or.inr ⟨raw, Or.inl ⟨hp, rfl⟩, by simp [preHooks, hp], by simp [preHooks, hp]⟩
+  | some f =>
+    cases hf : f raw with
+    | ok t => exact Or.inr ⟨t, Or.inr ⟨f, hp, hf⟩, by simp [preHooks, hp, hf], by simp [preHooks, hp, hf]⟩
+    | raise e => exact Or.inl ⟨f, e, rfl, hf, by simp [hf], by simp [hf]⟩
+
+theorem Hooks.Feeds.unique {hk : Hooks S C} {raw t t' : Text} (h : hk.Feeds raw t) (h' : hk.Feeds raw t') : t = t' := by
+  rcases h with ⟨hn, rfl⟩ | ⟨f, hf, hr⟩ <;> rcases h' with ⟨hn', rfl⟩ | ⟨f', hf', hr'⟩
+  · rfl
+  · rw [hn] at hf'; cases hf'
+  · rw [hn'] at hf; cases hf
+  · rw [hf] at hf'; cases hf'; rw [hr] at hr'; cases hr'; rfl
+
+theorem Hooks.Feeds.not_raise {hk : Hooks S C} {raw t : Text} (h : hk.Feeds raw t) (f : Text → Res Text) (e : Exc)
+    (hf : hk.pre = some f) : f raw ≠ .raise e := by
+  rcases h with ⟨hn, _⟩ | ⟨f', hf', hr⟩
+  · rw [hn] at hf; cases hf
+  · rw [hf] at hf'; cases hf'; rw [hr]; intro h; cases h
+
+/-- what `if self.on_misfold: self.on_misfold(report)` does: counters and library calls untouched; without a (truthy)
+    callback nothing is invoked and the result is returned; with one it is invoked exactly once, last, on the report,
+    and the result is returned unless the callback raises -/
+theorem callMisfold_spec (hk : Hooks S C) (stats : Stats) (hooks : List (HookCall S C)) (tr : Tr J S C)
+    (rep : FoldedX S C) (result : α) :
+    (callMisfold hk stats hooks tr rep result).stats = stats ∧
+    (callMisfold hk stats hooks tr rep result).trace = tr ∧
+    ((hk.onMisfold = none ∧ (callMisfold hk stats hooks tr rep result).hooks = hooks ∧
+        (callMisfold hk stats hooks tr rep result).res = .ok result) ∨
+     (∃ g, hk.onMisfold = some g ∧
+        (callMisfold hk stats hooks tr rep result).hooks = hooks ++ [.misfold rep (g rep)] ∧
+        (callMisfold hk stats hooks tr rep result).res =
+          (match g rep with | .ok _ => .ok result | .raise e => .raise e))) := by
+  unfold callMisfold
+  cases hg : hk.onMisfold with
+  | none => exact ⟨rfl, rfl, Or.inl ⟨rfl, rfl, rfl⟩⟩
+  | some g =>
+    cases hr : g rep with
+    | ok u => cases u; exact ⟨by simp [hr], by simp [hr], Or.inr ⟨g, rfl, by simp [hr], by simp [hr]⟩⟩
+    | raise e => exact ⟨by simp [hr], by simp [hr], Or.inr ⟨g, rfl, by simp [hr], by simp [hr]⟩⟩
+
+/-- the report with the caller's raw text echoed instead of the preprocessed one -/
+def Folded.echo (p : Folded S) (raw : Text) : Folded S := ⟨p.valid, p.struct, raw, p.err⟩
+def FoldedX.echo (x : FoldedX S C) (raw : Text) : FoldedX S C :=
+  ⟨x.valid, x.struct, raw, x.err, x.attempts, x.confidence, x.coercions, x.strategyUsed⟩
+
+/-- Complete description of `fold` and `fold_enhanced` with callbacks, when the co-chaperone (if any) returns:
+    through the two methods without callbacks on the text `t` the strategies work on. -/
+theorem foldHBoth_spec (env : Env J S C) (hk : Hooks S C) (cfg : Cfg) (st : Stats) (raw t : Text)
+    (call : List Strategy) (hfeeds : hk.Feeds raw t) :
+    ∃ tr st' p x, fold env cfg st t call = ⟨tr, .ok (st', p)⟩ ∧ foldX env cfg st t call = ⟨tr, .ok (st', x)⟩ ∧
+      p.valid = x.valid ∧
+      (foldH env hk cfg st raw call).stats = st' ∧ (foldXH env hk cfg st raw call).stats = st' ∧
+      (foldH env hk cfg st raw call).trace = tr ∧ (foldXH env hk cfg st raw call).trace = tr ∧
+      ((x.valid = true ∧
+          (foldH env hk cfg st raw call).hooks = preHooks hk raw t ∧
+          (foldXH env hk cfg st raw call).hooks = preHooks hk raw t ∧
+          (foldH env hk cfg st raw call).res = .ok (p.echo raw) ∧
+          (foldXH env hk cfg st raw call).res = .ok (x.echo raw)) ∨
+       (x.valid = false ∧
+          x = misfoldReport t (effective cfg call).length
+                ((effective cfg call).map (failRec (attemptX env t) (·.err))) ∧
+          ((hk.onMisfold = none ∧
+              (foldH env hk cfg st raw call).hooks = preHooks hk raw t ∧
+              (foldXH env hk cfg st raw call).hooks = preHooks hk raw t ∧
+              (foldH env hk cfg st raw call).res = .ok (p.echo raw) ∧
+              (foldXH env hk cfg st raw call).res = .ok (x.echo raw)) ∨
+           (∃ g, hk.onMisfold = some g ∧
+              (foldH env hk cfg st raw call).hooks = preHooks hk raw t ++ [.misfold (x.echo raw) (g (x.echo raw))] ∧
+              (foldXH env hk cfg st raw call).hooks = preHooks hk raw t ++ [.misfold (x.echo raw) (g (x.echo raw))] ∧
+              (foldH env hk cfg st raw call).res =
+                (match g (x.echo raw) with | .ok _ => .ok (p.echo raw) | .raise e => .raise e) ∧
+              (foldXH env hk cfg st raw call).res =
+                (match g (x.echo raw) with | .ok _ => .ok (x.echo raw) | .raise e => .raise e))))) := by
+  rcases foldH_cases env hk cfg st raw call with ⟨f, e, hp, hr, _, _⟩ | ⟨t', hfeeds', hH, hXH⟩
+  · exact absurd hr (hfeeds.not_raise f e hp)
+  · have ht := hfeeds'.unique hfeeds
+    subst ht
+    rw [hH, hXH]
+    rcases foldHOnBoth_spec env hk cfg st raw t' call (preHooks hk raw t') with
+      ⟨tr, stF, _, _, hx, hp, hxh, hph⟩ | ⟨tr, stH, rx, hv, hx, hp, hraw, hxh, hph⟩
+    · refine ⟨tr, stF, _, _, hp, hx, rfl, ?_⟩
+      rw [hxh, hph]
+      obtain ⟨h1, h2, h3⟩ := callMisfold_spec (J := J) hk stF (preHooks hk raw t') tr
+        (misfoldReport raw (effective cfg call).length ((effective cfg call).map (failRec (attemptX env t') (·.err))))
+        (misfoldReport raw (effective cfg call).length ((effective cfg call).map (failRec (attemptX env t') (·.err))) : FoldedX S C)
+      obtain ⟨k1, k2, k3⟩ := callMisfold_spec (J := J) hk stF (preHooks hk raw t') tr
+        (misfoldReport raw (effective cfg call).length ((effective cfg call).map (failRec (attemptX env t') (·.err))))
+        (⟨false, none, raw, some (.allFailed (effective cfg call).length)⟩ : Folded S)
+      refine ⟨k1, h1, k2, h2, Or.inr ⟨rfl, rfl, ?_⟩⟩
+      rcases h3 with ⟨hn, hh, hr⟩ | ⟨g, hg, hh, hr⟩ <;> rcases k3 with ⟨kn, kh, kr⟩ | ⟨g', kg, kh, kr⟩
+      · exact Or.inl ⟨hn, kh, hh, kr, hr⟩
+      · rw [hn] at kg; cases kg
+      · rw [kn] at hg; cases hg
+      · rw [hg] at kg; cases kg
+        exact Or.inr ⟨g, hg, kh, hh, kr, hr⟩
+    · refine ⟨tr, stH, _, rx, hp, hx, hv.symm, ?_⟩
+      rw [hxh, hph]
+      exact ⟨rfl, rfl, rfl, rfl, Or.inl ⟨hv, rfl, rfl, by simp [Folded.echo], by simp [FoldedX.echo]⟩⟩
+
 /-! ### clean input through STRICT -/
 
 theorem foldStrictX_clean (env : Env J S C) (raw : Text) (d : J) (v : S)
